@@ -95,8 +95,13 @@ def _replace_with_quantised(
     # Ideally we'd pass the formats as kwargs, but it currently causes a torch fx bug.
     # This workaround will suffice for now...
     args = [*node.args]
-    if len(node.args) == 2:  # pragma: no cover
-        args.append(None)
+    kwargs = dict(node.kwargs)
+    if node.target in (F.linear, U.linear):
+        if len(args) == 2:  # bias omitted, or given by keyword
+            args.append(kwargs.pop("bias", None))
+    elif len(args) > 3:  # attention: positional attn_mask, dropout_p, is_causal
+        kwargs.update(zip(("attn_mask", "dropout_p", "is_causal"), args[3:]))
+        args = args[:3]
     # Breaks when I pass in FPFormat objects, so convert to tuple and back
     args = (
         args[:3] + [format_to_tuple(fwd_format), format_to_tuple(bwd_format)] + args[3:]
@@ -105,7 +110,9 @@ def _replace_with_quantised(
     assert callable(node.target)
     quantised_fn = _replacement_map[node.target]
     logger.info("quantising function: %s", node)
-    replace_node_with_function(graph, node, quantised_fn, args=tuple(args))
+    replace_node_with_function(
+        graph, node, quantised_fn, args=tuple(args), kwargs=kwargs
+    )
 
 
 def _quantisation_backend(fwd_format: FPFormat, bwd_format: FPFormat) -> Backend:
